@@ -587,6 +587,8 @@ def run_history(ctx, rounds, dim, deadline, state_budget=60, cancel=False):
                            list(M.REGISTRY), INLINE, max_depth=6, max_steps=60000)
             _install_par(eng)
             env = {"kv": kv, "log": [], "tmp": {"puts": [], "deleted": [], "remap": []}, "sides": []}
+            if rd.get("sides"):
+                env["fixed_sides"] = rd["sides"]
             pc = []
             if cancel:
                 env["cancel_from"] = z3.BitVec("cancel_from_poll", 32)
@@ -656,6 +658,13 @@ HISTORIES = {
         (2, [dict(adds=[0, 1], split_after=1, n_trees=1), dict(adds=[3], dels=[1], split_after=1, n_trees=1),
              dict(adds=[2], dels=[0], split_after=1, n_trees=1)]),
         (2, [dict(adds=[0, 1], n_trees=None), dict(adds=[7], n_trees=None)]),
+        # more trees requested than there are items
+        # (side answers fixed by id parity for this one, so that the three trees do not cube the paths)
+        (2, [dict(adds=[0, 1], split_after=1, n_trees=3, sides="parity")]),
+        # a longer two-tree history under the same restriction (random fallback on the all-even bucket)
+        (2, [dict(adds=[0, 1, 2, 3], split_after=2, n_trees=2, sides="parity"),
+             dict(adds=[4, 5], dels=[1], split_after=2, n_trees=2, sides="parity"),
+             dict(dels=[0, 3], split_after=2, n_trees=1, sides="parity")]),
     ],
     "thorough": [
         (2, [dict(adds=[0, 1], split_after=1, n_trees=2), dict(adds=[2], split_after=1, n_trees=2),
@@ -674,7 +683,7 @@ def run_all(ctx, tier, cancel, deadline):
     if cancel:
         # the cancel point multiplies the paths: single-tree histories only (tree builds are independent,
         # so two trees square the path count)
-        hs = [h for h in hs if all((rd.get("n_trees") or 1) == 1 for rd in h[1])]
+        hs = [h for h in hs if all((rd.get("n_trees") or 1) == 1 or rd.get("sides") for rd in h[1])]
     for dim, rounds in hs:
         r = run_history(ctx, rounds, dim, deadline, state_budget=10 if tier == "quick" else 40, cancel=cancel)
         if total is None:
@@ -712,6 +721,12 @@ def history_scenario(v):
             out.append("expect_valid")
             if sa is not None:
                 out.append(f"expect_buckets_within {sa}")
+            stored_now = set()
+            for r2 in vals["rounds"][:vals["rounds"].index(rd) + 1]:
+                stored_now |= set(r2.get("adds", []))
+                stored_now -= set(r2.get("dels", []))
+            if nt is not None and sa is not None and len(stored_now) > sa and not (cancel_from is not None and last):
+                out.append(f"expect_n_trees {nt}")
     return "\n".join(out) + "\n"
 
 
